@@ -30,7 +30,9 @@ func (c *ctx) accepted(groups ...string) []*universe.UStruct {
 			continue
 		}
 		if len(groups) == 0 {
-			out = append(out, u)
+			if u.Group != "cluster" && u.Group != "clusterleaf" {
+				out = append(out, u)
+			}
 			continue
 		}
 		for _, g := range groups {
@@ -51,6 +53,8 @@ func (c *ctx) cfg() *genCfg {
 }
 
 func (c *ctx) newValue(u *universe.UStruct, g *genCfg) reflect.Value {
+	c.h.spares = nil
+	g.h = c.h
 	p := reflect.New(u.Type)
 	g.gen(p.Elem())
 	return p
@@ -312,6 +316,34 @@ func (c *ctx) malformed(us []*universe.UStruct, perType int) {
 				binary.BigEndian.PutUint32(m[pos:], v)
 				inputs = append(inputs, m)
 			}
+			// structure-aware: every container's count set to values around remaining/k
+			var conts []*TV
+			tv.containers(&conts)
+			for _, cn := range conts {
+				whole := len(tv.ser(nil))
+				hdr := 5
+				if cn.T == tMAP {
+					hdr = 6
+				}
+				remain := whole - cn.Off - hdr // what the decoder sees as the remaining buffer
+				for k := 1; k <= 17; k++ {
+					for _, d := range []int{-1, 0, 1} {
+						cv := uint32(remain/k + d)
+						cn.Count = &cv
+						inputs = append(inputs, tv.ser(nil))
+					}
+				}
+				n := len(cn.Elems)
+				for _, cv := range []uint32{uint32(n + 1), uint32(n + 2), uint32(2*n + 1), 0x7fffffff, 0xffffffff} {
+					cv := cv
+					cn.Count = &cv
+					inputs = append(inputs, tv.ser(nil))
+				}
+				cn.Count = nil
+				if len(inputs) > 4000 {
+					break
+				}
+			}
 			// splice
 			if tv2 := c.mkMessage(c.writerOf(u), g); tv2 != nil {
 				m2 := tv2.ser(nil)
@@ -432,6 +464,37 @@ func nestMsg(shapes []int, depth int, unknown bool) []byte {
 	return append(append(open, close...), 0)
 }
 
+// wideMsg: `under` levels of struct nesting (field 2), then one container (shape sh) with `width`
+// entries whose struct members are empty
+func wideMsg(sh, width, under int) []byte {
+	var b []byte
+	for d := 0; d < under; d++ {
+		b = append(b, tSTRUCT, 0, 2)
+	}
+	w := uint32(width)
+	switch sh {
+	case 3:
+		b = append(b, tLIST, 0, 3, tSTRUCT, byte(w>>24), byte(w>>16), byte(w>>8), byte(w))
+		for i := 0; i < width; i++ {
+			b = append(b, 0)
+		}
+	case 4, 5:
+		b = append(b, tMAP, 0, byte(sh), tSTRING, tSTRUCT, byte(w>>24), byte(w>>16), byte(w>>8), byte(w))
+		for i := 0; i < width; i++ {
+			b = append(b, 0, 0, 0, 2, byte(i>>8), byte(i), 0)
+		}
+	case 7:
+		b = append(b, tMAP, 0, 7, tSTRUCT, tI32, byte(w>>24), byte(w>>16), byte(w>>8), byte(w))
+		for i := 0; i < width; i++ {
+			b = append(b, 0, 0, 0, byte(i>>8), byte(i))
+		}
+	}
+	for d := 0; d <= under; d++ {
+		b = append(b, 0)
+	}
+	return b
+}
+
 func (c *ctx) depthProbe(node *universe.UStruct) {
 	shapesList := [][]int{{2}, {3}, {4}, {5}, {6}, {7}, {8}, {2, 3}, {3, 2, 2}, {2, 4, 6}, {3, 3, 2}, {7, 2}, {5, 3}}
 	depths := []int{1, 2, 10, 30, 47, 48, 49, 63, 64, 65, 100, 170, 171, 255, 256, 257, 340, 341, 342, 510, 511, 512, 513, 600, 1022, 1023, 1024, 2000}
@@ -453,6 +516,14 @@ func (c *ctx) depthProbe(node *universe.UStruct) {
 			}
 		}
 	}
+	// wide but shallow: many entries / elements at small depth must not cost depth
+	for _, under := range []int{0, 40} {
+		for _, width := range []int{600, 1021, 1022, 1100, 3000} {
+			for _, sh := range []int{4, 5, 3, 7} {
+				c.h.opDec(node, wideMsg(sh, width, under), reflect.New(node.Type), false)
+			}
+		}
+	}
 	// random mixtures (this is where a lost zero test between two decrements shows up)
 	for k := 0; k < c.n*4; k++ {
 		l := 1 + c.r.Intn(6)
@@ -462,6 +533,33 @@ func (c *ctx) depthProbe(node *universe.UStruct) {
 		}
 		d := []int{300, 400, 520, 700, 1100, 3000}[c.r.Intn(6)] + c.r.Intn(40)
 		c.h.opDec(node, nestMsg(sh, d, false), reflect.New(node.Type), false)
+	}
+}
+
+// poolResidue: a decode that sets presence bits / fills scratch for ids that the NEXT decode, of
+// another type, requires but does not receive (and the other way round)
+func (c *ctx) poolResidue(us []*universe.UStruct, rounds int) {
+	g := c.cfg()
+	g.maxLen = 3
+	for i := 0; i < rounds; i++ {
+		a := us[c.r.Intn(len(us))]
+		b := us[c.r.Intn(len(us))]
+		// message for a: complete
+		if tv := c.mkMessage(c.writerOf(a), g); tv != nil {
+			if c.r.Intn(2) == 0 {
+				c.decorate(tv)
+			}
+			c.h.opDec(a, tv.ser(nil), c.dest(a, g), false)
+		}
+		// message for b built from ANY type's message: b's required fields are mostly absent
+		src := us[c.r.Intn(len(us))]
+		if tv := c.mkMessage(c.writerOf(src), g); tv != nil {
+			if c.r.Intn(2) == 0 && len(tv.Fields) > 0 {
+				tv.Fields = tv.Fields[:c.r.Intn(len(tv.Fields))]
+			}
+			c.h.opDec(b, tv.ser(nil), c.dest(b, g), false)
+		}
+		c.h.opDec(b, []byte{0}, reflect.New(b.Type), false)
 	}
 }
 
@@ -554,6 +652,7 @@ func (c *ctx) concurrent(us []*universe.UStruct, workers, steps int) {
 	}
 	close(start)
 	wg.Wait()
+	c.storms(outs, seeds)
 	for _, hh := range outs {
 		hh.out.Flush()
 		c.h.out.Write(hh.buf.Bytes())
@@ -562,6 +661,233 @@ func (c *ctx) concurrent(us []*universe.UStruct, workers, steps int) {
 		}
 		c.h.nops += hh.nops
 	}
+}
+
+// clusterFirstUse: the W and B types of every cluster are first used at the same moment by
+// several goroutines (values with non-nil nested pointers so that a half-built descriptor faults)
+func (c *ctx) clusterFirstUse(out *H) {
+	var ws []*universe.UStruct
+	for i := range universe.Structs {
+		if universe.Structs[i].Group == "cluster" {
+			ws = append(ws, &universe.Structs[i])
+		}
+	}
+	g := c.cfg()
+	g.maxLen = 2
+	g.depth = 4
+	type item struct {
+		u *universe.UStruct
+		p reflect.Value
+	}
+	// values are prepared before the storm (generation uses reflect only, not frugal)
+	var groups [][]item
+	for i := 0; i+2 < len(ws); i += 3 {
+		var its []item
+		for _, u := range []*universe.UStruct{ws[i], ws[i+2], ws[i], ws[i+2], ws[i+1]} {
+			var p reflect.Value
+			for try := 0; try < 20; try++ {
+				p = c.newValue(u, g)
+				if !p.Elem().Field(0).IsNil() {
+					break
+				}
+			}
+			its = append(its, item{u, p})
+		}
+		groups = append(groups, its)
+	}
+	var mu sync.Mutex
+	for gi, its := range groups {
+		var wg sync.WaitGroup
+		start := make(chan struct{})
+		for k, it := range its {
+			k, it := k, it
+			hh := newBufH()
+			wg.Add(1)
+			go func() {
+				defer wg.Done()
+				<-start
+				for spin := 0; spin < (k*37+gi*11)%200; spin++ {
+					runtime.Gosched()
+				}
+				hh.opEnc(it.u, it.p, encOpt{bufLen: -1})
+				hh.opSize(it.u, it.p, false)
+				hh.out.Flush()
+				mu.Lock()
+				out.out.Write(hh.buf.Bytes())
+				out.nops += hh.nops
+				for kk, v := range hh.stats {
+					out.stats[kk] += v
+				}
+				mu.Unlock()
+			}()
+		}
+		close(start)
+		wg.Wait()
+	}
+}
+
+// bigByValueStorm: concurrent by-value encodes of multi-megabyte values on one and two Ps; every
+// goroutine checks that the bytes equal those of a sequential encode of its own (unmodified) value
+func (c *ctx) bigByValueStorm() {
+	var u *universe.UStruct
+	fi := -1
+	for _, x := range c.accepted("lists") {
+		for _, f := range x.Fields {
+			ft := x.Type.Field(f.Index).Type
+			if ft.Kind() == reflect.Slice && ft.Elem().Kind() == reflect.Int64 && ft.Elem().Name() == "int64" {
+				u, fi = x, f.Index
+				break
+			}
+		}
+		if u != nil {
+			break
+		}
+	}
+	if u == nil {
+		return
+	}
+	const workers = 6
+	vals := make([]reflect.Value, workers)
+	want := make([][]byte, workers)
+	for w := 0; w < workers; w++ {
+		p := reflect.New(u.Type)
+		l := make([]int64, 400000)
+		for i := range l {
+			l[i] = int64(w + 1)
+		}
+		p.Elem().Field(fi).Set(reflect.ValueOf(l))
+		// worker-specific content in the scalar-list fields before and after the long one
+		for _, f := range u.Fields {
+			fv := p.Elem().Field(f.Index)
+			switch fv.Interface().(type) {
+			case []int32:
+				fv.Set(reflect.ValueOf([]int32{int32(w), int32(w * 7), -int32(w)}))
+			case []int16:
+				fv.Set(reflect.ValueOf([]int16{int16(w + 100)}))
+			case []float64:
+				fv.Set(reflect.ValueOf([]float64{float64(w) + 0.5, float64(w)}))
+			case []string:
+				fv.Set(reflect.ValueOf([]string{fmt.Sprintf("worker-%d", w)}))
+			}
+		}
+		vals[w] = p
+		want[w] = encodeQuiet(p)
+	}
+	for _, procs := range []int{1, 2} {
+		prev := runtime.GOMAXPROCS(procs)
+		var wg sync.WaitGroup
+		fails := make([]string, workers)
+		for w := 0; w < workers; w++ {
+			w := w
+			wg.Add(1)
+			go func() {
+				defer wg.Done()
+				buf := make([]byte, len(want[w]))
+				for it := 0; it < 25; it++ {
+					res := safely(func() string {
+						n, err := frugal.EncodeObject(buf, nil, vals[w].Elem().Interface())
+						if err != nil || n != len(want[w]) {
+							return fmt.Sprintf("n=%d err=%v", n, err)
+						}
+						if string(buf[:n]) != string(want[w]) {
+							return "bytes differ from the sequential encoding of the same value"
+						}
+						return "ok"
+					})
+					if res != "ok" {
+						fails[w] = res
+						return
+					}
+				}
+			}()
+		}
+		wg.Wait()
+		runtime.GOMAXPROCS(prev)
+		for w, f := range fails {
+			if f != "" {
+				c.h.oracle("C16", fmt.Sprintf("concurrent by-value EncodeObject (GOMAXPROCS=%d, worker %d, sid=%d): %s", procs, w, u.Sid, f))
+				c.h.oracle("C08", fmt.Sprintf("concurrent by-value EncodeObject (GOMAXPROCS=%d, worker %d, sid=%d): %s", procs, w, u.Sid, f))
+			}
+		}
+		c.h.stats["bigbyvalue_rounds"]++
+	}
+}
+
+// storms: (a) concurrent decodes into holder-bearing readers of messages with many unknown fields;
+// (b) concurrent by-value encodes of long values with few Ps (pooled scratch copies).
+func (c *ctx) storms(outs []*H, seeds []int64) {
+	var holders []*universe.UStruct
+	for _, u := range c.accepted("evolution", "leaf", "recursive", "random") {
+		if u.Holder {
+			holders = append(holders, u)
+		}
+	}
+	type job struct {
+		u   *universe.UStruct
+		msg []byte
+	}
+	g := c.cfg()
+	g.maxLen = 4
+	var jobs []job
+	for i := 0; i < 40*c.n && len(holders) > 0; i++ {
+		u := holders[c.r.Intn(len(holders))]
+		tv := c.mkMessage(c.writerOf(u), g)
+		if tv == nil {
+			continue
+		}
+		for k := 0; k < 6; k++ {
+			tv.Fields = append(tv.Fields, TField{uint16(300 + c.r.Intn(3000)), randTV(c.r, wireTypes[c.r.Intn(len(wireTypes))], 2)})
+		}
+		tv.shuffleFields(c.r)
+		jobs = append(jobs, job{u, tv.ser(nil)})
+	}
+	var wg sync.WaitGroup
+	for w, hh := range outs {
+		w, hh := w, hh
+		wg.Add(1)
+		go func() {
+			defer wg.Done()
+			r := rand.New(rand.NewSource(seeds[w] + 7))
+			for i := 0; i < 30*c.n && len(jobs) > 0; i++ {
+				j := jobs[r.Intn(len(jobs))]
+				hh.opDec(j.u, j.msg, reflect.New(j.u.Type), false)
+			}
+		}()
+	}
+	wg.Wait()
+	// (b) by-value encodes
+	prev := runtime.GOMAXPROCS(2)
+	defer runtime.GOMAXPROCS(prev)
+	bv := c.accepted("lists", "byvalue")
+	type ejob struct {
+		u *universe.UStruct
+		p reflect.Value
+	}
+	var ejobs []ejob
+	gb := c.cfg()
+	gb.maxLen = 40
+	gb.bigStr = false
+	gb.holders = false
+	for i := 0; i < 4 && len(bv) > 0; i++ {
+		u := bv[c.r.Intn(len(bv))]
+		for k := 0; k < 3; k++ {
+			ejobs = append(ejobs, ejob{u, c.newValue(u, gb)})
+		}
+	}
+	for w, hh := range outs {
+		w, hh := w, hh
+		wg.Add(1)
+		go func() {
+			defer wg.Done()
+			r := rand.New(rand.NewSource(seeds[w] + 11))
+			for i := 0; i < 2*c.n && len(ejobs) > 0; i++ {
+				j := ejobs[r.Intn(len(ejobs))]
+				hh.opEnc(j.u, j.p, encOpt{byval: true, bufLen: -1})
+				runtime.Gosched()
+			}
+		}()
+	}
+	wg.Wait()
 }
 
 func min(a, b int) int {
